@@ -5,6 +5,7 @@ CONSTANTS
   OwnNeg = 1
   OwnPos = 1
   MaxSteps = 2
+  AcyclicOnly = FALSE
   Variant = "design"
 INVARIANT MC_LoadIffAcyclic
 INVARIANT MC_OrderDepsFirst
@@ -12,6 +13,7 @@ INVARIANT SameStepShared
 INVARIANT CurIsSolution
 INVARIANT TotalIsSum
 INVARIANT MC_OrderIsEvalOrder
+INVARIANT MC_TCAgrees
 PROPERTY ConfigFrozen
 VIEW MCView
 CHECK_DEADLOCK FALSE
